@@ -25,11 +25,12 @@ type Call struct {
 	T0    time.Duration
 	T1    time.Duration
 	Parks int
+	C     chan struct{} // closed when the call has returned
 }
 
 // Start issues f on a new thread.
 func Start(name string, f func() (interface{}, error)) *Call {
-	c := &Call{Name: name, T0: vsched.Now()}
+	c := &Call{Name: name, T0: vsched.Now(), C: make(chan struct{})}
 	go func() {
 		p0 := vsched.Parks()
 		v, err := f()
@@ -40,9 +41,13 @@ func Start(name string, f func() (interface{}, error)) *Call {
 			vsched.Fail("lockleak:call:"+name, "call %s returned while its thread still holds %d library mutex(es): %s", name, n, vsched.HeldLockSites())
 		}
 		c.Fin = true
+		close(c.C)
 	}()
 	return c
 }
+
+// Wait blocks until the call has returned.
+func (c *Call) Wait() { <-c.C }
 
 // Done reports whether the call has returned.
 func (c *Call) Done() bool { return c.Fin }
@@ -199,3 +204,6 @@ func Hist(depth int, events func() []Event, settle func()) {
 
 // Sleep advances virtual time by d (all timers due in between fire, in order).
 func Sleep(d time.Duration) { time.Sleep(d) }
+
+// Yield is a plain scheduling point for harness polling loops.
+func Yield() { vsched.Yield() }
